@@ -52,7 +52,7 @@ def _effect_leaf(ctx, sn):
     c = sn.callee
     if isinstance(c, Func):
         return ctx.E.eff.has_effect(c, EFFECTS)
-    k, _ = ctx.E.eff.classify(c, sn.call)
+    k, _ = ctx.E.eff.classify(c, sn.call, sn.func)
     return k in EFFECTS
 
 
@@ -197,7 +197,7 @@ def r2_3(ctx, rc):
     else:
         prims = [n for n in sg.nodes if n.kind == 'leaf' and
                  not isinstance(n.callee, Func) and
-                 ctx.E.eff.classify(n.callee, n.call)[1]]
+                 ctx.E.eff.classify(n.callee, n.call, n.func)[1]]
         rc.ok({'may_fail_primitives_swallowed': sorted(
             {callee_name(p) for p in prims})}, key=key)
     w = Q.first_unguarded(
@@ -343,7 +343,7 @@ def r2_6(ctx, rc):
             for g in ctx.prog.resolve_call(call, m):
                 if isinstance(g, Func):
                     continue
-                k, _ = ctx.E.eff.classify(g, call)
+                k, _ = ctx.E.eff.classify(g, call, m)
                 if k in (DESTROY, CREATE, UNKNOWN):
                     n += 1
                     key = '%s in %s' % (g, m.qualname)
